@@ -205,21 +205,21 @@ package vaa
 //@ func (b BodyUpdateMessageFee) Serialize() (out []byte)
 //@   props C15
 //@   ensures [header] ral_is_core_module(out) && out[32] == ral_core_action_NewMessageFee
-//@   ensures [fee] len(out) == ral_setMessageFee_fee_off + len(b.NewMessageFee) && (forall j in 0..len(b.NewMessageFee) :: out[ral_setMessageFee_fee_off + j] == b.NewMessageFee[j])
+//@   ensures [fee] len(out) == ral_setMessageFee_fee_off + len(b.NewMessageFee) && (forall k in ral_setMessageFee_fee_off..len(out) :: out[k] == b.NewMessageFee[k - ral_setMessageFee_fee_off])
 //@   modifies fresh lib:bytes.Buffer.b
 //@   nopanic
 
 //@ func (b BodyTransferFee) Serialize() (out []byte)
 //@   props C15
 //@   ensures [header] ral_is_core_module(out) && out[32] == ral_core_action_TransferFee
-//@   ensures [fields] len(out) == ral_transferFees_amount_off + len(b.Amount) + len(b.Recipient) && (forall j in 0..len(b.Amount) :: out[ral_transferFees_amount_off + j] == b.Amount[j]) && (forall j in 0..len(b.Recipient) :: out[ral_transferFees_amount_off + len(b.Amount) + j] == b.Recipient[j])
+//@   ensures [fields] len(out) == ral_transferFees_amount_off + len(b.Amount) + len(b.Recipient) && (forall k in ral_transferFees_amount_off..ral_transferFees_amount_off + len(b.Amount) :: out[k] == b.Amount[k - ral_transferFees_amount_off]) && (forall k in ral_transferFees_amount_off + len(b.Amount)..len(out) :: out[k] == b.Recipient[k - ral_transferFees_amount_off - len(b.Amount)])
 //@   modifies fresh lib:bytes.Buffer.b
 //@   nopanic
 
 //@ func (b BodyContractUpgrade) Serialize() (out []byte)
 //@   props C15
 //@   ensures [header] ral_is_core_module(out) && out[32] == ral_core_action_ContractUpgrade
-//@   ensures [payload] len(out) == 33 + len(b.Payload) && (forall j in 0..len(b.Payload) :: out[33 + j] == b.Payload[j])
+//@   ensures [payload] len(out) == 33 + len(b.Payload) && (forall k in 33..len(out) :: out[k] == b.Payload[k - 33])
 //@   modifies fresh lib:bytes.Buffer.b
 //@   nopanic
 
@@ -241,10 +241,10 @@ package vaa
 //@ func (r BodyTokenBridgeRegisterChain) Serialize() (out []byte)
 //@   props C15
 //@   requires [module-fits] len(r.Module) <= 32
-//@   ensures [module] (forall i in 0..32-len(r.Module) :: out[i] == 0) && (forall j in 0..len(r.Module) :: out[32 - len(r.Module) + j] == str2bytes(r.Module)[j])
+//@   ensures [module] (forall i in 0..32-len(r.Module) :: out[i] == 0) && (forall k in 32 - len(r.Module)..32 :: out[k] == str2bytes(r.Module)[k - (32 - len(r.Module))])
 //@   ensures [action] out[32] == ral_tb_action_RegisterChain
 //@   ensures [chain] be16at(out, ral_registerChain_remoteChainId_off) == r.ChainID
-//@   ensures [emitter] forall j in 0..32 :: out[ral_registerChain_remoteTokenBridgeId_off + j] == at32(r.EmitterAddress, j)
+//@   ensures [emitter] forall k in ral_registerChain_remoteTokenBridgeId_off..ral_registerChain_remoteTokenBridgeId_end :: out[k] == at32(r.EmitterAddress, k - ral_registerChain_remoteTokenBridgeId_off)
 //@   ensures [size] len(out) == ral_registerChain_size_base
 //@   modifies fresh lib:bytes.Buffer.b
 //@   nopanic
@@ -255,9 +255,9 @@ package vaa
 //@ func (r BodyTokenBridgeUpgradeContract) Serialize() (out []byte)
 //@   props C15
 //@   requires [module-fits] len(r.Module) <= 32
-//@   ensures [module] (forall i in 0..32-len(r.Module) :: out[i] == 0) && (forall j in 0..len(r.Module) :: out[32 - len(r.Module) + j] == str2bytes(r.Module)[j])
+//@   ensures [module] (forall i in 0..32-len(r.Module) :: out[i] == 0) && (forall k in 32 - len(r.Module)..32 :: out[k] == str2bytes(r.Module)[k - (32 - len(r.Module))])
 //@   ensures [action] out[32] == ral_tb_action_ContractUpgrade
-//@   ensures [payload] len(out) == 33 + len(r.Payload) && (forall j in 0..len(r.Payload) :: out[33 + j] == r.Payload[j])
+//@   ensures [payload] len(out) == 33 + len(r.Payload) && (forall k in 33..len(out) :: out[k] == r.Payload[k - 33])
 //@   modifies fresh lib:bytes.Buffer.b
 //@   nopanic
 //@   loop [i < (32 - len(r.Module))]:
@@ -292,7 +292,7 @@ package vaa
 //@   requires [length-fits-two-bytes] len(b.NewRefundAddress) <= 65535
 //@   ensures [header] ral_is_tb_module(out) && out[32] == ral_tb_action_UpdateRefundAddress
 //@   ensures [length] be16at(out, ral_refundAddress_addressSize_off) == len(b.NewRefundAddress)
-//@   ensures [address] len(out) == ral_refundAddress_size_base + ral_refundAddress_size_per * len(b.NewRefundAddress) && (forall j in 0..len(b.NewRefundAddress) :: out[35 + j] == b.NewRefundAddress[j])
+//@   ensures [address] len(out) == ral_refundAddress_size_base + ral_refundAddress_size_per * len(b.NewRefundAddress) && (forall k in 35..len(out) :: out[k] == b.NewRefundAddress[k - 35])
 //@   modifies fresh lib:bytes.Buffer.b
 //@   nopanic
 
